@@ -54,6 +54,7 @@ class Recorder:
         self.module, self.names = module, [n for n in names if hasattr(module, n)]
         self.limit, self.every = limit, max(1, every)
         self.again_every = again_every
+        self.paused = False     # set while the harness itself changes the environment the helpers read (e.g. sys.stdin)
         self.twice = []         # (name, args, kwargs, first, second): asked twice in a row, answers differ
         self.asked_twice = 0
         self.calls = []
@@ -68,6 +69,8 @@ class Recorder:
             def make(name, orig):
                 @functools.wraps(orig)
                 def wrapper(*a, **kw):
+                    if self.paused:
+                        return orig(*a, **kw)
                     self.seen += 1
                     keep = len(self.calls) < self.limit and self.seen % self.every == 0
                     if keep:
